@@ -822,6 +822,29 @@ example : List.Forall₂ (fun (a r : Axis ℚ) => ∀ x ∈ Axis.nodes r, a.c 0 
   ⟨.cons (C15.resampling_uniform_coarsen_in_hull 0 1 4 2 .linear .linear (by norm_num)
       (by norm_num) (by norm_num)) .nil, by decide +kernel, by decide +kernel⟩
 
+/-- No overshoot through `Resampling`: when the range nodes lie in the hull of the domain nodes
+(e.g. a coarser-or-equal uniform grid of the same interval, `resampling_uniform_coarsen_in_hull`;
+a `nodes_on_bdry=True` domain and any range grid of the same interval), every entry of the
+resampled real array lies between the smallest and the largest stored value — every mix of linear
+and nearest axes, every dimension, non-uniform grids. -/
+theorem C15.resampling_within_value_bounds {K : Type} [Field K] [LinearOrder K]
+    [IsStrictOrderedRing K] (dom ran : List (Axis K)) (hg : ∀ a ∈ dom, a.Good)
+    (hin : List.Forall₂ (fun a r => ∀ x ∈ Axis.nodes r, a.c 0 ≤ x ∧ x ≤ a.c (a.n - 1)) dom ran)
+    (v : List Nat → K) (m M : K) (hv : ∀ idx, ValidIdx dom idx → m ≤ v idx ∧ v idx ≤ M) :
+    ∀ y ∈ resampling dom ran v, m ≤ y ∧ y ≤ M := by
+  rw [C15.resampling_samples_interpolant dom ran hg hin.length_eq.symm]
+  intro y hy
+  obtain ⟨p, hp, rfl⟩ := List.mem_map.mp hy
+  apply C15.interp_within_value_bounds dom hg v m M hv
+  refine cartesian_forall₂ (fun a x => a.c 0 ≤ x ∧ x ≤ a.c (a.n - 1)) dom _ ?_ p hp
+  exact List.forall₂_map_right_iff.mpr hin
+
+/-- Non-vacuity: a `nodes_on_bdry=True` domain of [0, 1] with 3 nodes contains every node of the
+4-cell default grid of [0, 1]. -/
+example : List.Forall₂ (fun (a r : Axis ℚ) => ∀ x ∈ Axis.nodes r, a.c 0 ≤ x ∧ x ≤ a.c (a.n - 1))
+    [uniformAxisBdry true true 0 1 3 .linear] [uniformAxis 0 1 4 .nearest] := by
+  decide +kernel
+
 /-- `Resampling` is linear in its argument (what `linear=True` declares), as executed, for every
 scheme mix and dimension: `R(c•v + w) = c•R(v) + R(w)` entry by entry. -/
 theorem C15.resampling_linear (dom ran : List (Axis K)) (hg : ∀ a ∈ dom, a.Good)
